@@ -201,7 +201,18 @@ def run_history(rc_mod, rng, nevents, check_every=1):
     for step in range(nevents):
         r = rng.random()
         iface = rng.choice(list(IFACES))
-        if r < 0.45:
+        if r < 0.04:
+            # the kernel repeats the announcement of a route that is still waiting for its next hop (replace with the
+            # same attributes): nothing changes
+            waiting = sorted(k for k, g in kroutes.items() if g not in ndb.kernel_neigh)
+            if not waiting:
+                continue
+            key = rng.choice(waiting)
+            ev = ("RTM_NEWROUTE", key[0], key[1], key[2], kroutes[key], "repeated")
+            events.append(ev)
+            ctl._netlink_route_handler(None, route_msg("RTM_NEWROUTE", key[0], key[1], key[2], kroutes[key]))
+            stats["repeated_announcements"] = stats.get("repeated_announcements", 0) + 1
+        elif r < 0.45:
             cands = [(iface, p, l) for (p, l) in PREFIXES if (iface, p, l) not in kroutes]
             if not cands:
                 continue
@@ -301,7 +312,7 @@ def run(pid, cfg, args, b, drv):
     m = {"evaluations": 0, "distinct": {}, "events": {}, "samples": [], "violations": [], "inconclusive": [],
          "assumptions": [
              "pyroute2, pybess and scapy are not installed: route_control.py is imported with stub modules; the recording BESS client raises BESS.Error with ENOENT/EEXIST/EBUSY like BESS does",
-             "histories are kernel-consistent (RTM_NEWROUTE only for absent routes, RTM_DELROUTE only for present ones, one MAC per next hop); time.sleep inside the module is patched out",
+             "histories are kernel-consistent (RTM_NEWROUTE only for absent routes - or repeated for a route that is still waiting for its next hop -, RTM_DELROUTE only for present ones, one MAC per next hop); time.sleep inside the module is patched out",
          ], "notes": [], "exhaustive": False}
     try:
         rc = load_route_control(repo)
